@@ -133,3 +133,178 @@ PROPS["C08"] = dict(
              "the mesh snapping of x0 is H-SB (C01)", "mismatched dimensions (a concrete shape test, nothing symbolic)"],
     time_limit=dict(quick=600, thorough=7200), chunk=120,
 )
+
+
+# ================================================================================================ shared job families
+def ps_jobs(tier, levels=(0, 1, 2), cons=False, fault=False, D2=True):
+    jobs = []
+    k0s = (0, -1, -21) if tier == "quick" else (0, -1, -2, -5, -10, -19, -20, -21)
+    for k0 in k0s:
+        for cp in (False, True):
+            for acc in (True, False):
+                for lvl in levels:
+                    for bl in ((10, 1) if tier == "quick" else (10, 2, 1, 0)):
+                        if tier == "quick" and (bl == 1 and (lvl != 0 or not acc)):
+                            continue
+                        jobs.append(J("h_ps:HPS", D=1, k0=k0, complete_poll=cp, accelerate=acc, level=lvl, budget_left=bl,
+                                      cons="bool" if cons else None, fault=fault, M=0))
+    jobs.append(J("h_ps:HPS", D=1, k0=-1, complete_poll=True, accelerate=True, level=0, budget_left=10, cons="bool" if cons else None, fault=fault, M=1))
+    jobs.append(J("h_ps:HPS", D=1, k0=-1, complete_poll=True, accelerate=True, level=0, budget_left=10, cons="bool" if cons else None, fault=fault, M=0, iter=2))
+    if D2:
+        if tier == "quick":
+            jobs.append(J("h_ps:HPS", D=2, k0=-1, complete_poll=False, accelerate=True, level=0, budget_left=10, dirs="fixed", cc="box",
+                          cons=None, fault=fault, M=0))
+        else:
+            for cp in (False, True):
+                for lvl in levels:
+                    jobs.append(J("h_ps:HPS", D=2, k0=-1, complete_poll=cp, accelerate=True, level=lvl, budget_left=10, dirs="real", cc="real",
+                                  cons="bool" if cons else None, fault=fault, M=0))
+            jobs.append(J("h_ps:HPS", D=2, k0=0, complete_poll=True, accelerate=False, level=0, budget_left=3, dirs="real", cc="real",
+                          cons=None, fault=fault, M=1))
+    return jobs
+
+
+def ss_jobs(tier, levels=(0, 1, 2), cons=False, fault=False):
+    jobs = []
+    for D, M in (((1, 1), (2, 1), (1, 0)) if tier == "quick" else ((1, 0), (1, 1), (1, 2), (2, 0), (2, 1), (2, 2), (3, 1))):
+        for lvl in levels:
+            for k0 in ((-1,) if tier == "quick" else (0, -1, -4)):
+                jobs.append(J("h_ss:HSS", D=D, M=M, k0=k0, level=lvl, cons="bool" if cons else None, fault=fault, sc0=1))
+    return jobs
+
+
+def lb_jobs(tier, fault=False):
+    jobs = []
+    for D in ((1, 2) if tier == "quick" else (1, 2, 3)):
+        from vf.common import cached_options
+        ntry = int(cached_options(D)["search_n_try"])
+        for k0 in ((0, -1, -19, -20) if tier == "quick" else tuple(range(0, -23, -1))):
+            for sc0 in range(0, ntry + 1):
+                jobs.append(J("h_lb:HLB", D=D, k0=k0, sc0=sc0, level=0, fault=fault))
+        jobs.append(J("h_lb:HLB", D=D, k0=-1, sc0=0, level=0, fault=fault, enough_points=False))
+        jobs.append(J("h_lb:HLB", D=D, k0=-3, sc0=ntry, level=0, fault=fault, ssi_stale=True))
+    return jobs
+
+
+def cc_jobs(tier, cons_modes=(None, "bool", "real")):
+    jobs = []
+    shapes = ((2, 1, 1), (2, 2, 1), (3, 1, 2), (1, 2, 0), (2, 2, 0)) if tier == "quick" else \
+        ((1, 1, 1), (2, 1, 1), (2, 2, 1), (3, 1, 2), (2, 2, 2), (3, 2, 1), (3, 1, 1), (1, 3, 1), (2, 3, 1))
+    for (N, D, M) in shapes:
+        for proj in (True, False):
+            for cons in cons_modes:
+                if cons and (N, D, M) not in ((2, 1, 1), (2, 2, 1), (2, 2, 0)):
+                    continue
+                jobs.append(J("h_cc:HCC", N=N, D=D, M=M, proj=proj, cons=cons, k=-3 if (tier == "quick" or N * D > 3) else -19))
+    jobs.append(J("h_cc:HCC", N=2, D=2, M=1, proj=True, cons=None, k=-3, inf=[1]))
+    jobs.append(J("h_cc:HCC", N=2, D=1, M=1, proj=True, cons=None, k=-19))
+    return jobs
+
+
+def vt_jobs(tier):
+    jobs = [J("h_vt:HVT", D=1, nonlinear=False), J("h_vt:HVT", D=2, nonlinear=False), J("h_vt:HVT", D=1, nonlinear=True),
+            J("h_vt:HVT", D=1, nonlinear=True, kinds=["inf"]), J("h_vt:HVT", D=2, nonlinear=False, kinds=["inf", "fin"]),
+            J("h_vt:HVT", D=2, nonlinear=False, kinds=[["conc", 1e-3, 1e-2, 1.0, 10.0], "fin"])]
+    conc = [[1e-3, 1e-2, 1.0, 10.0], [1e-12, 1e-12, 1e-11, 1e12], [1.0, 1.0, 10.0, 10.0], [0.5, 1.0, 9.99, 20.0], [1e3, 1e4, 1e12, 1e12]]
+    for c in conc:
+        # point obligations only for moderate scales: with |bound| ~ 1e12 the float-evaluated anchors of log/exp are
+        # too coarse for the 1e-9 * width tolerance to be decided on the over-approximation
+        jobs.append(J("h_vt:HVT", D=1, nonlinear=True, kinds=[["conc"] + c], points=c[3] < 1e9))
+    if tier == "thorough":
+        jobs.append(J("h_vt:HVT", D=3, nonlinear=False))
+        jobs.append(J("h_vt:HVT", D=2, nonlinear=True, kinds=["fin", "inf"]))
+        for c in conc[:3]:
+            jobs.append(J("h_vt:HVT", D=2, nonlinear=True, kinds=[["conc"] + c, "fin"]))
+    return jobs
+
+
+def pm_jobs(tier):
+    jobs = []
+    for D in (1, 2, 3):
+        for ratio in (1, 2, 4):
+            jobs.append(J("h_pm:HPM", D=D, ratio=ratio, scale="one"))
+            if D <= 2 or tier == "thorough":
+                jobs.append(J("h_pm:HPM", D=D, ratio=ratio, scale="sym"))
+    return jobs
+
+
+def fl_kind_jobs(tier):
+    from vf.harness.h_fl import INVALID_KINDS, HE_INVALID
+    jobs = []
+    for D in ((1, 2) if tier == "thorough" else (2,)):
+        for n in (0, 2):
+            for level in (0, 1, 2):
+                kinds = ["raise", "py", "arr1"] + list(INVALID_KINDS) if level < 2 else ["raise", "valid"] + list(INVALID_KINDS) + list(HE_INVALID)
+                for kind in kinds:
+                    for record in (True, False):
+                        if not record and n == 0:
+                            continue
+                        jobs.append(J("h_fl:HFL", D=D, n_filled=n, cache=max(n, 1), level=level, op="call", record=record, kind=kind, transform=False))
+    return jobs
+
+
+# ================================================================================================ properties
+PS_C13 = {"mesh_exponent_transition", "mesh_size_is_power_of_two", "mesh_at_most_cap", "search_mesh_not_above_poll_mesh"}
+LB_C13 = {"mesh_exponent_changes_only_in_poll", "search_mesh_not_above_poll_mesh_at_loop_head", "mesh_size_consistent", "termination_message_true"}
+PROPS["C13"] = dict(
+    jobs=lambda tier: ps_jobs(tier) + lb_jobs(tier), labels=PS_C13 | LB_C13,
+    required=sorted(PS_C13 | LB_C13),
+    bounds=dict(quick="poll step: D=1 with the real direction generator and real candidate filter, mesh exponent k0 in {0,-1,-21}, complete_poll x accelerate_mesh x noise level {0,1,2} x remaining budget {10,1}; D=2 with fixed directions and a box-filter stub; loop body: D<=2, k0 in {0,-1,-19,-20}, every search_count",
+                thorough="poll step: D=1 k0 in {0,-1,-2,-5,-10,-19,-20,-21}, budget {10,2,1,0}; D=2 with the real generator/filter (all sign and permutation outcomes); loop body D<=3, k0 in [0,-22]"),
+    outside=["non-default search_mesh_expand / poll_mesh_multiplier", "stobads mode", "floating point: mesh sizes are exact powers of two in both models"],
+    time_limit=dict(quick=600, thorough=5400))
+
+PS_C14 = {"poll_point_on_frame", "poll_points_pairwise_distinct", "poll_at_most_2D_evaluations", "directions_generated_once"}
+PM_C14 = {"two_D_directions", "second_half_is_negated_first_half", "entries_are_integers", "entries_bounded_by_mesh_ratio", "basis_is_nonsingular",
+          "signed_coordinate_directions_when_ratio_one"}
+PROPS["C14"] = dict(
+    jobs=lambda tier: pm_jobs(tier) + ps_jobs(tier, levels=(0,)), labels=PS_C14 | PM_C14, required=sorted(PS_C14 | PM_C14),
+    bounds=dict(quick="direction generator: D<=3, mesh ratio in {1,2,4}, entries symbolic integers (every value), every permutation, symbolic positive poll scale for D<=2; poll step as C13 (deterministic mode)",
+                thorough="as quick plus symbolic poll scale for D=3 and the D=2 poll step with the real generator"),
+    outside=["'up to rounding': exact in real arithmetic", "gp poll_scale other than 1 inside the poll step (the generator harness covers symbolic scales)"],
+    time_limit=dict(quick=600, thorough=5400))
+
+C03_LB = {"budget_never_exceeded", "iteration_bound", "termination_message_names_a_condition", "termination_message_true",
+          "optim_state_message_recorded", "not_finished_means_no_condition_holds", "ranking_function_decreases", "ranking_function_bounded",
+          "loop_invariant_preserved"}
+C03_PS = {"poll_at_most_2D_evaluations", "poll_calls_only_below_budget", "poll_func_count_consistent"}
+C03_SS = {"search_at_most_one_evaluation", "search_count_incremented_once", "search_success_only_with_evaluation"}
+C03_FL = {"func_count_plus_one", "failure_leaves_count", "target_called_once"}
+PROPS["C03"] = dict(
+    jobs=lambda tier: lb_jobs(tier) + ps_jobs(tier, levels=(0, 1)) + ss_jobs(tier, levels=(0, 1)) +
+    [j for j in c12_jobs("quick") if j["params"]["op"] == "call" and j["params"]["D"] == 2 and j["params"]["n_filled"] in (0, 2)],
+    labels=C03_LB | C03_PS | C03_SS | C03_FL, required=sorted(C03_LB | C03_PS | C03_SS | {"func_count_plus_one"}),
+    bounds=dict(quick="loop body (one inductive step, symbolic budget / counters / iteration bound, ranking function): D<=2, k0 in {0,-1,-19,-20}, every search_count; poll and search steps as C13/C18; logger: D=2",
+                thorough="loop body D<=3, k0 in [0,-22]; poll/search steps with deeper bounds"),
+    outside=["output_fcn callbacks", "max_fun_evals == 1", "non-default improvement_quantile / search_mesh_expand", "the budget carve-out for final noisy samples and the tail (H-IM / H-TAIL jobs, when present)"],
+    time_limit=dict(quick=600, thorough=5400))
+
+C04_STEP = {"incumbent_value_is_minimum", "incumbent_is_evaluated_pair", "incumbent_moves_iff_strictly_better", "fval_equals_yval_fsd_zero",
+            "u_best_tracks_u", "optim_state_tracks_incumbent"}
+C04_LB = {"recorded_u_is_incumbent", "recorded_values_are_current", "recorded_value_never_above_previous_incumbent", "incumbent_u_is_u_best"}
+PROPS["C04"] = dict(
+    jobs=lambda tier: ps_jobs(tier, levels=(0,)) + ss_jobs(tier, levels=(0,)) + lb_jobs(tier), labels=C04_STEP | C04_LB,
+    required=sorted(C04_STEP | C04_LB),
+    bounds=dict(quick="deterministic mode; poll step D=1 (real generator/filter) and D=2 (fixed directions); search step D<=2 with <=1 logged row; loop-body record block D<=2",
+                thorough="poll step D=2 with the real generator; search step D<=3, <=2 logged rows; loop body D<=3"),
+    outside=["one-ulp ties (reals)", "non-default incumbent-update policy (stobads, sloppy_improvement off)"],
+    time_limit=dict(quick=600, thorough=5400))
+
+C17_LABELS = {"rows_inside_box", "rows_are_input_rows", "rows_pairwise_distinct", "not_already_evaluated", "returned_rows_feasible", "feasible_count",
+              "oracle_called_once"}
+PROPS["C17"] = dict(
+    jobs=cc_jobs, labels=C17_LABELS, required=["rows_inside_box", "rows_are_input_rows", "rows_pairwise_distinct", "not_already_evaluated", "returned_rows_feasible"],
+    bounds=dict(quick="candidate rows x D x logged rows in {(2,1,1),(2,2,1),(3,1,2),(1,2,0),(2,2,0)}, projection on/off, constraint oracle none/bool/real, tol_mesh 2^-3 (2^-19 for one D=1 job), one coordinate with an infinite box",
+                thorough="up to 3 rows x D=2 with 1 logged row, 2x2 with 2 logged rows, D=3; tol_mesh 2^-19 where the rounding arithmetic stays tractable"),
+    outside=["|coordinates| > 64", "full-run consequence 'a deterministic target is never evaluated twice' (follows from obligation not_already_evaluated, which is a listed known finding)"],
+    time_limit=dict(quick=600, thorough=5400))
+
+C11_LABELS = {"ctor_accepts_valid_bounds", "log_iff_positive_decade", "plausible_bounds_map_to_unit", "internal_box_contains_unit_box", "original_bounds_kept",
+              "forward_output_in_internal_box", "inverse_output_in_original_box", "order_never_reversed", "round_trip_within_1e-9_of_width",
+              "strictly_increasing_exact", "round_trip_exact"}
+PROPS["C11"] = dict(
+    jobs=vt_jobs, labels=C11_LABELS, required=sorted(C11_LABELS - {"ctor_accepts_valid_bounds"}),
+    bounds=dict(quick="affine: D<=2 all four bound vectors and the points symbolic (also with an unbounded coordinate); log: D=1 symbolic bounds with log/exp axiomatised, and 5 concrete decade geometries (1e-12..1e12, exactly one decade, tight boxes); mixed log/affine D=2 with a concrete log coordinate and a symbolic affine one",
+                thorough="affine D=3; symbolic log coordinate next to an unbounded one; mixed problems with the symbolic coordinate free to be log or affine"),
+    outside=["the 1e-9 rounding-error clause (reals have no rounding error)", "|bounds| > 1e300 where exp overflows", "log/exp are increasing functions linked as inverses and agreeing with the floating-point values at concrete arguments (over-approximation)"],
+    time_limit=dict(quick=600, thorough=5400))
